@@ -823,7 +823,7 @@ class C16:
     props_module = 'SmoothProps.C16'
     lean_targets = ['SmoothProps.C16']
     translators = [gen_view_layout, gen_bundle_layout]
-    rule = ('harness/mem.cpp: 21 catalogued group types (SO2 SO3 SE2 SE3 C1 Galilei SE_K_3<1..4>, 11 Bundles incl. nested) x '
+    rule = ('harness/mem.cpp: 25 catalogued group types (SO2 SO3 SE2 SE3 C1 Galilei SE_K_3<1..4>, 15 Bundles incl. nested and with Rn / C1 / nested parts in first and middle position) x '
             '{double,float}; random scripts of <= 50 ops (I C A K M ML P X R RL) on 2-4 overlapping Map<G>/Map<const G> views at word offsets '
             '0..3 of one guarded buffer + 2 value objects; the full state after EVERY op is compared with the Lean buffer model; '
             'distinct_nontrivial counts distinct (group, scalar, op kind, accessor path, storage kinds)')
